@@ -17,7 +17,9 @@ import (
 	"sync/atomic"
 	"testing"
 	"testing/synctest"
+	"time"
 
+	"github.com/modelcontextprotocol/go-sdk/jsonrpc"
 	"github.com/modelcontextprotocol/go-sdk/mcp"
 	"github.com/modelcontextprotocol/go-sdk/verif/memio"
 	"github.com/modelcontextprotocol/go-sdk/verif/vt"
@@ -38,12 +40,18 @@ type Step struct {
 	Kind    string `json:"kind"`           // send | release
 	Envs    []Env  `json:"envs,omitempty"` // send: 1 envelope = single message, >1 = batch
 	Release int    `json:"release,omitempty"`
+	// EagerReuse (send, only with Script.WriteLagUs > 0): as soon as the answer to one of this step's calls has
+	// arrived, the peer sends a ping re-using that id, while the server's Write has not yet returned.
+	EagerReuse bool `json:"eager_reuse,omitempty"`
 }
 
 type Script struct {
 	Transport string `json:"transport"` // ndjson (others: see http.go)
 	Version   string `json:"version"`   // negotiated in the handshake
 	Steps     []Step `json:"steps"`
+	// WriteLagUs: the server's transport returns from Write this long (virtual time) after the bytes reached
+	// the peer, as a transport with flush latency does. The peer may legally re-use an id in that window.
+	WriteLagUs int `json:"write_lag_us,omitempty"`
 }
 
 var callMethods = []string{"ping", "tools/list", "prompts/list", "resources/list", "tools/call:fast", "tools/call:park", "tools/call:park", "resources/read", "prompts/get", "logging/setLevel", "initialize", "completion/complete"}
@@ -100,6 +108,9 @@ func genScript(rt *rapid.T, transport string) Script {
 	s := Script{Transport: transport}
 	s.Version = rapid.SampledFrom([]string{"2024-11-05", "2025-03-26", "2025-03-26", "2025-06-18", "2025-11-25"}).Draw(rt, "version")
 	batchOK := s.Version < "2025-06-18"
+	if transport == "ndjson" {
+		s.WriteLagUs = rapid.SampledFrom([]int{0, 0, 0, 500}).Draw(rt, "write_lag")
+	}
 	n := rapid.IntRange(1, 25).Draw(rt, "steps")
 	for i := 0; i < n; i++ {
 		if rapid.IntRange(0, 4).Draw(rt, "steptype") == 0 {
@@ -113,7 +124,7 @@ func genScript(rt *rapid.T, transport string) Script {
 				k = -1 // a batch of one
 			}
 		}
-		st := Step{Kind: "send"}
+		st := Step{Kind: "send", EagerReuse: rapid.IntRange(0, 2).Draw(rt, "eager") == 0}
 		cnt := k
 		if k == -1 {
 			cnt = 1
@@ -443,6 +454,31 @@ type pending struct {
 
 var freshCounter int64
 
+// lagTransport makes Write return d (virtual time) after the inner Write did.
+type lagTransport struct {
+	inner mcp.Transport
+	d     time.Duration
+}
+
+func (t *lagTransport) Connect(ctx context.Context) (mcp.Connection, error) {
+	c, err := t.inner.Connect(ctx)
+	if err != nil {
+		return nil, err
+	}
+	return &lagConn{Connection: c, d: t.d}, nil
+}
+
+type lagConn struct {
+	mcp.Connection
+	d time.Duration
+}
+
+func (c *lagConn) Write(ctx context.Context, msg jsonrpc.Message) error {
+	err := c.Connection.Write(ctx, msg)
+	time.Sleep(c.d)
+	return err
+}
+
 // freshID returns a JSON-RPC id token that no generated envelope uses (unique per process).
 func freshID() string {
 	return fmt.Sprint(1_000_000 + atomic.AddInt64(&freshCounter, 1))
@@ -473,7 +509,20 @@ func runNDJSON(s Script) (res vt.Result) {
 	g := &gates{}
 	server := newServer(g)
 	a, b := memio.NewPipe()
-	ss, err := server.Connect(context.Background(), &mcp.IOTransport{Reader: a, Writer: a}, nil)
+	var st mcp.Transport = &mcp.IOTransport{Reader: a, Writer: a}
+	lag := time.Duration(s.WriteLagUs) * time.Microsecond
+	if lag > 0 {
+		st = &lagTransport{inner: st, d: lag}
+	}
+	// settle: quiescence; with a lagging transport, also after every queued Write has returned
+	settle := func() {
+		synctest.Wait()
+		if lag > 0 {
+			time.Sleep(200 * lag)
+			synctest.Wait()
+		}
+	}
+	ss, err := server.Connect(context.Background(), st, nil)
 	if err != nil {
 		res.Failf("harness: %v", err)
 		return
@@ -619,7 +668,7 @@ func runNDJSON(s Script) (res vt.Result) {
 			parked[k].released = true
 			parked[k].exp.parks = false
 			g.release(parked[k].env.Gate)
-			synctest.Wait()
+			settle()
 			if !quiescentInvariant(i, "release") {
 				return finish(res, s, &desc, nt)
 			}
@@ -729,6 +778,24 @@ func runNDJSON(s Script) (res vt.Result) {
 				return finish(res, s, &desc, nt)
 			}
 			synctest.Wait()
+			if lag > 0 && st.EagerReuse {
+				// the answers of this step's fast calls have reached the peer; the server's Write is still lagging
+				if !check(i, line) {
+					return finish(res, s, &desc, nt)
+				}
+				for _, p := range news {
+					if p.done && p.exp.response && p.env.ID != "" && !inflight[canonical(p.tok)] {
+						q := &pending{env: Env{ID: p.env.ID, Method: "ping", Params: "absent"}, exp: expect{response: true, class: "id_reused_right_after_response"}, tok: p.env.ID, batch: -1}
+						pend = append(pend, q)
+						inflight[canonical(p.tok)] = true
+						peer.Send(`{"jsonrpc":"2.0","id":` + p.env.ID + `,"method":"ping"}`)
+						nt = true
+						desc.WriteString("eager;")
+						break
+					}
+				}
+			}
+			settle()
 			if !quiescentInvariant(i, line) {
 				return finish(res, s, &desc, nt)
 			}
@@ -738,7 +805,7 @@ func runNDJSON(s Script) (res vt.Result) {
 		tok := fmt.Sprintf(`"ping-%d"`, pingN)
 		pend = append(pend, &pending{env: Env{ID: tok, Method: "ping", Params: "absent"}, exp: expect{response: true, class: "liveness_ping"}, tok: tok, batch: -1})
 		peer.Send(`{"jsonrpc":"2.0","id":` + tok + `,"method":"ping"}`)
-		synctest.Wait()
+		settle()
 		if !quiescentInvariant(i, "liveness ping") {
 			return finish(res, s, &desc, nt)
 		}
@@ -750,7 +817,7 @@ func runNDJSON(s Script) (res vt.Result) {
 		}
 	}
 	g.releaseAll()
-	synctest.Wait()
+	settle()
 	quiescentInvariant(len(s.Steps), "final")
 	for _, p := range pend {
 		if p.exp.response && !p.done && len(res.Violations) == 0 {
@@ -779,7 +846,7 @@ func finish(res vt.Result, s Script, desc *strings.Builder, nt bool) vt.Result {
 	res.Desc = s.Transport + "|" + s.Version + "|" + desc.String()
 	res.NonTrivial = nt
 	d := desc.String()
-	for _, c := range []string{"unknown_method", "id_on_notification", "call_without_id", "required_params_missing", "undecodable_params", "parked_call", "inflight_id_reuse", "/big/", "B;", "rO;"} {
+	for _, c := range []string{"unknown_method", "id_on_notification", "call_without_id", "required_params_missing", "undecodable_params", "parked_call", "inflight_id_reuse", "/big/", "B;", "rO;", "eager;"} {
 		if strings.Contains(d, c) {
 			res.Class(strings.Trim(c, "/;"))
 		}
